@@ -18,8 +18,8 @@ delivery from the subject; the harness then ends that connection and the teardow
 except when the cause is Server.Close, whose return the property demands without exemption.
 `held-up-by-self` (the subject's processor is parked behind the subject's OWN client) is no exemption since
 the repair b77088f (finding F7): the oracle rejects it; it is still seen - as the open finding F8 - where the
-cause cannot be noticed at all (`selffull keepalive`: the receiver waits because the incoming ring is completely
-full, no read deadline is armed).
+cause cannot be noticed at all (`selffull keepalive`, `selffull halfclose`: the receiver waits because the incoming ring
+is completely full, no read is pending - no deadline is armed, an end-of-stream is not read).
 """
 from .props import Prop, Run, register, COMMON_TRUSTED
 from .props_ka import ka_oracle, ka_recv_parked
@@ -54,7 +54,7 @@ def recv_parked(ops_prefix, impl=None, spec=None):
     w = ops_prefix[-1].split()
     if w and w[0] == 'ka':
         return ka_recv_parked(ops_prefix, impl, spec)
-    return len(w) >= 4 and w[0] == 'life' and w[1] == 'run' and w[2] == 'selffull' and w[3] == 'keepalive'
+    return len(w) >= 4 and w[0] == 'life' and w[1] == 'run' and w[2] == 'selffull' and w[3] in ('keepalive', 'halfclose')
 
 
 LIFE_ASSUMPTIONS = [
